@@ -10,7 +10,6 @@ def errStr : Err → String
   | .index => "index"
   | .outOfFuel => "fuel"
   | .tape => "tape"
-  | .lenScalar => "len0d"
 
 def parseProposal (v : Json) : Except String Dino.Proposal := do
   let a ← natList v
